@@ -67,7 +67,8 @@ func (c Config) Epochs() int64 {
 const maxEpochs = 480 // cap on N (never binding inside the lattice: 5 + 3*156 + 2 = 475)
 
 // ---- the lattice -------------------------------------------------------------------------------
-// Every dimension lists its values simplest-first; shrinking moves towards index 0.
+// Values in the order of DESIGN.md §5 C18; the order in which a failing point is simplified is
+// given by `simpler` below.
 
 const (
 	dPer = iota
